@@ -4,7 +4,10 @@
   * `concat(s, s)` is `strcat(p, p)` whatever the allocator does: overlapping, for every well-formed `s` (`concatA_self_ub`);
   * an aliased `assign` is undefined whatever the allocator does (`assignAt_ub`);
   * the proposed repair (`assignFix`, `concatFix`) gives the by-value result for every operand form (`assignFix_ok`,
-    `concatFix_ok`).
+    `concatFix_ok`);
+  * calls in contract (`AOp.InContract`: by value; `assign` with the target itself — the early return of 744a45f,
+    `assignA_self`; `rem` with any operand form) refine the by-value operation on the text (`stepA_ok`), histories of them by
+    induction (`runA_ok`); by-value histories are a special case (`histOK_of_noAlias`).
 -/
 import CelloProofs.Lemmas.StrRun
 namespace Cello.Str
@@ -321,6 +324,146 @@ theorem stepFix_ok {P : Params} (hP : P.Lawful) (J : Nat → Byte) (mv : Bool) (
       have := inblk src hin
       simp [stepFix, formatFix, this, step]
     rw [e]; exact byval _ hnf
+
+/-! ### calls in contract (`AOp.InContract`): the target itself / a view where the code defines it -/
+
+/-- on a well-formed target a view inside the text reads the text's suffix -/
+theorem read_eq_readAbs {s : Str} (hs : s.WF) (src : Src) (h : src.off ≤ s.abs.length) : src.read s = src.readAbs s.abs := by
+  obtain ⟨c, r, rfl, hc, habs⟩ := hs.view
+  rw [habs] at h ⊢
+  cases src with
+  | val x => rfl
+  | self => exact habs
+  | view off => exact cstrAt_view c r hc off h
+
+theorem toOp_eq_absOp {s : Str} (hs : s.WF) {op : AOp} (h : op.InText s) : op.toOp s = op.absOp s.abs := by
+  cases op <;> simp only [AOp.toOp, AOp.absOp] <;> first | rfl | (rw [read_eq_readAbs hs _ h])
+
+theorem readAbs_nulFree {a : List Byte} (ha : NulFree a) (src : Src) (h : NulFree (src.read ⟨[]⟩)) : NulFree (src.readAbs a) := by
+  cases src with
+  | val x => exact h
+  | self => exact ha
+  | view off => exact not_mem_drop ha off
+
+theorem absOp_nulFree {a : List Byte} (ha : NulFree a) {op : AOp} (h : op.plain.NulFree) : (op.absOp a).NulFree := by
+  cases op <;> first | exact h | exact readAbs_nulFree ha _ h
+
+theorem absOp_noAlias {op : AOp} (h : op.NoAlias) (a : List Byte) : op.absOp a = op.plain := by
+  cases op with
+  | assign src | concat src | append src | rem src => cases src <;> first | rfl | exact absurd h id
+  | formatS pos src => cases src <;> first | rfl | exact absurd h id
+  | _ => rfl
+
+theorem inContract_of_noAlias {op : AOp} (h : op.NoAlias) (a : List Byte) : op.InContract a := by
+  cases op with
+  | assign src => cases src <;> first | exact Or.inl trivial | exact absurd h id
+  | concat src | append src => exact h
+  | formatS pos src => exact h
+  | rem src => cases src <;> first | exact Nat.zero_le _ | exact absurd h id
+  | _ => trivial
+
+/-- a history whose operands are all by value is in contract, and its specification is the by-value one -/
+theorem histOK_of_noAlias : ∀ (ops : List AOp) (a : List Byte), (∀ op ∈ ops, op.NoAlias) →
+    HistOK a ops ∧ Spec.runA a ops = Spec.run a (ops.map AOp.plain)
+  | [], _, _ => ⟨trivial, rfl⟩
+  | op :: ops, a, h => by
+    have h1 := h op (by simp)
+    have ih := histOK_of_noAlias ops (Spec.step a (op.absOp a)) (fun o ho => h o (by simp [ho]))
+    refine ⟨⟨inContract_of_noAlias h1 a, ih.1⟩, ?_⟩
+    simp only [Spec.runA, List.map_cons, Spec.run]
+    rw [ih.2, absOp_noAlias h1]
+
+/-- `assign(s, obj)` where `c_str(obj)` is `s->val` (the target itself or a view at offset 0): the early return of 744a45f —
+    the object is untouched, not a byte read or written, whatever the allocator would have done -/
+theorem assignA_self {P : Params} (hP : P.Lawful) (J : Nat → Byte) (mv : Bool) (s : Str) (src : Src) (hv : ¬ src.Disjoint)
+    (h0 : src.off = 0) : assignA P J mv s src = { st := s, out := .ok 0, log := [] } := by
+  cases src with
+  | val x => exact absurd trivial hv
+  | self => simp [assignA, hP.assignSelf, Src.off]
+  | view off => simp only [Src.off] at h0; subst h0; simp [assignA, hP.assignSelf, Src.off]
+
+/-- a view at an offset > 0 is a different pointer: the guard does not fire -/
+theorem assignA_view_pos (P : Params) (J : Nat → Byte) (mv : Bool) (s : Str) (off : Nat) (h : 0 < off) :
+    assignA P J mv s (.view off) = assignAt P J mv s off := by
+  have : (off == 0) = false := by simp; omega
+  simp [assignA, Src.off, this]
+
+/-- one call in contract: everything the property says about the by-value operation, and nothing undefined -/
+theorem stepA_ok {P : Params} (hP : P.Lawful) (J : Nat → Byte) (mv : Bool) (s : Str) (op : AOp) (hs : s.WF)
+    (hc : op.InContract s.abs) (hn : (op.absOp s.abs).NulFree) :
+    StepOK s (op.absOp s.abs) (stepA P J mv s op) ∧ (stepA P J mv s op).out.isUB = false := by
+  have byval : ∀ o : Op, o.NulFree → stepA P J mv s op = step P J s o → op.absOp s.abs = o →
+      StepOK s (op.absOp s.abs) (stepA P J mv s op) ∧ (stepA P J mv s op).out.isUB = false := by
+    intro o ho e1 e2; rw [e1, e2]; exact ⟨step_ok hP J s o hs ho, step_not_ub P J s o⟩
+  cases op with
+  | assign src =>
+    by_cases hv : src.Disjoint
+    · cases src with
+      | val x => exact byval (.assign x) hn rfl rfl
+      | self => exact absurd hv id
+      | view off => exact absurd hv id
+    · have h0 : src.off = 0 := by
+        rcases hc with h | h
+        · exact absurd h hv
+        · exact h
+      have e : stepA P J mv s (.assign src) = { st := s, out := .ok 0, log := [] } := assignA_self hP J mv s src hv h0
+      have ea : (AOp.assign src).absOp s.abs = .assign s.abs := by
+        cases src with
+        | val x => exact absurd trivial hv
+        | self => rfl
+        | view off => simp only [Src.off] at h0; subst h0; simp [AOp.absOp, Src.readAbs]
+      rw [e, ea]
+      exact ⟨⟨hs, rfl, rfl, by simp [Spec.raises], fun _ => rfl⟩, rfl⟩
+  | concat src =>
+    cases src with
+    | val x => exact byval (.concat x) hn rfl rfl
+    | self => exact absurd hc id
+    | view off => exact absurd hc id
+  | append src =>
+    cases src with
+    | val x => exact byval (.append x) hn rfl rfl
+    | self => exact absurd hc id
+    | view off => exact absurd hc id
+  | formatS pos src =>
+    cases src with
+    | val x => exact byval (.format pos x) hn rfl rfl
+    | self => exact absurd hc id
+    | view off => exact absurd hc id
+  | resize n => exact byval (.resize n) hn rfl rfl
+  | clear => exact byval .clear hn rfl rfl
+  | format pos f => exact byval (.format pos f) hn rfl rfl
+  | rem src =>
+    have hr : src.read s = src.readAbs s.abs := read_eq_readAbs hs src hc
+    have e : stepA P J mv s (.rem src) = step P J s (.rem (src.readAbs s.abs)) := by
+      rw [← hr]
+      cases src with
+      | val x => rfl
+      | self => rfl
+      | view off =>
+        obtain ⟨c, r, rfl, hcc, habs⟩ := hs.view
+        have hoff : off ≤ c.length := by rw [habs] at hc; exact hc
+        have := inBlock_view c r hcc off hoff
+        simp [stepA, remA, this, step, Src.read]
+    exact byval _ hn e rfl
+
+/-- **histories in contract**: by induction, the object stays well-formed, holds the text the specification computes (operands
+    that are the target or a view are read from the text at the moment of the call), every step is in bounds and defined -/
+theorem runA_ok {P : Params} (hP : P.Lawful) (J : Nat → Byte) (mv : Nat → Bool) : ∀ (ops : List AOp) (i : Nat) (s : Str), s.WF →
+    HistOK s.abs ops → (∀ op ∈ ops, op.plain.NulFree) →
+    (runA P J mv i s ops).1.WF ∧ (runA P J mv i s ops).1.abs = Spec.runA s.abs ops ∧
+    (runA P J mv i s ops).2.length = ops.length ∧
+    ∀ r ∈ (runA P J mv i s ops).2, r.safe = true ∧ r.st.WF ∧ r.out.isUB = false
+  | [], _, s, hs, _, _ => by simp [runA, Spec.runA, hs]
+  | op :: ops, i, s, hs, hok, hops => by
+    obtain ⟨h1, hub⟩ := stepA_ok hP J (mv i) s op hs hok.1 (absOp_nulFree (abs_nulFree s) (hops op (by simp)))
+    have hok' : HistOK (stepA P J (mv i) s op).st.abs ops := by rw [h1.abs]; exact hok.2
+    have ih := runA_ok hP J mv ops (i + 1) (stepA P J (mv i) s op).st h1.wf hok' (fun o ho => hops o (by simp [ho]))
+    simp only [runA, Spec.runA]
+    refine ⟨ih.1, by rw [ih.2.1, h1.abs], by simp [ih.2.2.1], ?_⟩
+    intro r hr
+    rcases List.mem_cons.mp hr with hr | hr
+    · subst hr; exact ⟨h1.safe, h1.wf, hub⟩
+    · exact ih.2.2.2 r hr
 
 /-! ### String_Show into the String it shows -/
 
